@@ -1086,7 +1086,16 @@ class Interp:
         if gen in ("core::cmp::PartialOrd::lt", "core::cmp::PartialOrd::le",
                    "core::cmp::PartialOrd::gt", "core::cmp::PartialOrd::ge"):
             a, b = self.ev(args[0], env, depth), self.ev(args[1], env, depth)
+            if isinstance(a, Ref):
+                a = a.get()
+            if isinstance(b, Ref):
+                b = b.get()
             if isinstance(a, (int, float)) and isinstance(b, (int, float)):
+                return {"lt": a < b, "le": a <= b, "gt": a > b, "ge": a >= b}[gen[-2:]]
+            if isinstance(a, (list, tuple)) and isinstance(b, (list, tuple)) and all(isinstance(x, int) for x in list(a) + list(b)):
+                a, b = list(a), list(b)           # Vec<integer> compares lexicographically
+                return {"lt": a < b, "le": a <= b, "gt": a > b, "ge": a >= b}[gen[-2:]]
+            if isinstance(a, str) and isinstance(b, str):
                 return {"lt": a < b, "le": a <= b, "gt": a > b, "ge": a >= b}[gen[-2:]]
             raise Unknown("ordering on non-numbers (derived PartialOrd is resolved by rules)")
         if gen == "core::clone::Clone::clone":
